@@ -17,15 +17,6 @@ Proof.
   rewrite (init_cp_absorbed_same F rO rI radd rmul rsub ropp Rth eqb Heq R w fs Hl Hr). reflexivity.
 Qed.
 
-Lemma hals_all_fixed_raises : exists n fixed budget, (forall m, m < n -> In m fixed) /\
-  forall (M W : Type) upd stop normf normalize (s : st M W),
-  run upd stop normf normalize NNHals n fixed budget true s = Err.
-Proof.
-  exists 3, [0; 1; 2], 1. split.
-  - intros m Hm. destruct m as [|[|[|m]]]; simpl; auto; lia.
-  - intros. reflexivity.
-Qed.
-
 Lemma normalize_breaks_fixed : exists upd stop normf (s s' : st nat unit),
   run upd stop normf true Parafac 2 [0] 1 true s = Ok s' /\ In 0 (eff_fixed Parafac 2 [0]) /\
   nth 0 (facs s') 0 <> nth 0 (facs s) 0.
@@ -69,11 +60,40 @@ Section Lists.
     rewrite (H off) by (simpl; lia). apply IH. intros i Hi. apply H. simpl. lia.
   Qed.
 
-  Theorem tucker_all_fixed_raises (fs : list M) partial :
-    tucker_fixed_lists (seq 0 (length fs)) fs partial = Err.
+  (* the part of tucker_fixed_lists after the all-fixed return *)
+  Definition tfl_tail (fixed : list nat) (fs : list M) (partial : list nat -> list M -> list M) : res (list M) :=
+    let fx := py_sorted fixed in
+    let fixedp := pick (fun i => memb i fx) 0 fs in
+    let freep := pick (fun i => negb (memb i fx)) 0 fs in
+    match freep with
+    | [] => Err
+    | _ => reinsert fx (map snd fixedp) (partial (map fst freep) (map snd freep))
+    end.
+  Lemma tucker_fixed_lists_unfold fixed fs partial :
+    tucker_fixed_lists fixed fs partial =
+    if forallb (fun i => memb i (py_sorted fixed)) (seq 0 (length fs)) then Ok fs else tfl_tail fixed fs partial.
+  Proof. reflexivity. Qed.
+
+  Lemma all_fixed_b_true fixed n : forallb (fun i => memb i (py_sorted fixed)) (seq 0 n) = true <-> (forall i, i < n -> In i fixed).
   Proof.
-    unfold tucker_fixed_lists. rewrite (pick_none _ fs 0); [reflexivity|].
-    intros i Hi. rewrite memb_py_sorted. apply negb_false_iff. apply memb_In, in_seq. lia.
+    rewrite forallb_forall. split.
+    - intros H i Hi. rewrite <- (memb_In i fixed), <- memb_py_sorted. apply H, in_seq. lia.
+    - intros H i Hi. apply in_seq in Hi. rewrite memb_py_sorted. apply memb_In, H. lia.
+  Qed.
+
+  (* every factor fixed: the supplied list is returned (commit b6b5914) *)
+  Theorem tucker_all_fixed_returns (fixed : list nat) (fs : list M) partial :
+    (forall i, i < length fs -> In i fixed) -> tucker_fixed_lists fixed fs partial = Ok fs.
+  Proof. intros H. rewrite tucker_fixed_lists_unfold. now rewrite (proj2 (all_fixed_b_true fixed (length fs)) H). Qed.
+
+  (* a duplicate-free in-range request that does not cover every mode is shorter than the factor list *)
+  Lemma not_all_fixed_lt fixed n : NoDup fixed -> (forall e, In e fixed -> e < n) ->
+    forallb (fun i => memb i (py_sorted fixed)) (seq 0 n) = false -> length fixed < n.
+  Proof.
+    intros Hnd Hb E. destruct (Nat.lt_ge_cases (length fixed) n) as [H|H]; [exact H|]. exfalso.
+    assert (Hincl : incl (seq 0 n) fixed).
+    { apply NoDup_length_incl; [exact Hnd | now rewrite seq_length |]. intros e He. apply in_seq. specialize (Hb e He). lia. }
+    rewrite (proj2 (all_fixed_b_true fixed n)) in E; [discriminate|]. intros i Hi. apply Hincl, in_seq. lia.
   Qed.
 
   (* ---- re-insertion of the fixed factors *)
@@ -220,16 +240,16 @@ Section Lists.
     - intros x. rewrite filter_In, in_seq, memb_In. split; [tauto|]. intros H. split; auto.
   Qed.
 
-  Theorem tucker_reinsert_spec (fixed : list nat) (fs : list M) (partial : list nat -> list M -> list M) :
+  Lemma tfl_tail_spec (fixed : list nat) (fs : list M) (partial : list nat -> list M -> list M) :
     NoDup fixed -> (forall e, In e fixed -> e < length fs) -> length fixed < length fs ->
     (forall modes free, length (partial modes free) = length free) ->
-    exists out, tucker_fixed_lists fixed fs partial = Ok out /\ length out = length fs /\
+    exists out, tfl_tail fixed fs partial = Ok out /\ length out = length fs /\
       (forall e d, In e fixed -> nth e out d = nth e fs d) /\
       map snd (pick (fun i => negb (memb i (py_sorted fixed))) 0 out)
       = partial (map fst (pick (fun i => negb (memb i (py_sorted fixed))) 0 fs))
                 (map snd (pick (fun i => negb (memb i (py_sorted fixed))) 0 fs)).
   Proof.
-    intros Hnd Hb Hlt Hp. unfold tucker_fixed_lists.
+    intros Hnd Hb Hlt Hp. unfold tfl_tail.
     set (fx := py_sorted fixed). set (keep := fun i => memb i fx). set (keep' := fun i => negb (memb i fx)).
     assert (Hkk : forall i, keep' i = negb (keep i)) by reflexivity.
     assert (Hs : ssorted fx) by (apply py_sorted_ssorted; exact Hnd).
@@ -257,5 +277,23 @@ Section Lists.
       + rewrite map_length. exact Hnew.
       + simpl. unfold keep. apply memb_In. apply (proj2 (In_py_sorted e fixed)). exact He.
     - apply (pick_merge_free keep keep' Hkk). rewrite map_length. lia.
+  Qed.
+  (* the general statement: no hypothesis on how many modes are fixed any more *)
+  Theorem tucker_reinsert_spec (fixed : list nat) (fs : list M) (partial : list nat -> list M -> list M) :
+    NoDup fixed -> (forall e, In e fixed -> e < length fs) ->
+    (forall modes free, length (partial modes free) = length free) ->
+    exists out, tucker_fixed_lists fixed fs partial = Ok out /\ length out = length fs /\
+      (forall e d, In e fixed -> nth e out d = nth e fs d) /\
+      map snd (pick (fun i => negb (memb i (py_sorted fixed))) 0 out)
+      = partial (map fst (pick (fun i => negb (memb i (py_sorted fixed))) 0 fs))
+                (map snd (pick (fun i => negb (memb i (py_sorted fixed))) 0 fs)).
+  Proof.
+    intros Hnd Hb Hp. rewrite tucker_fixed_lists_unfold.
+    destruct (forallb (fun i => memb i (py_sorted fixed)) (seq 0 (length fs))) eqn:E.
+    - exists fs. split; [reflexivity|]. split; [reflexivity|]. split; [reflexivity|].
+      assert (Hnone : pick (fun i => negb (memb i (py_sorted fixed))) 0 fs = []).
+      { apply pick_none. intros i Hi. apply negb_false_iff. rewrite forallb_forall in E. apply E, in_seq. lia. }
+      rewrite Hnone. cbn [map]. specialize (Hp [] []). destruct (partial [] []); [reflexivity | discriminate].
+    - apply tfl_tail_spec; auto. now apply not_all_fixed_lt.
   Qed.
 End Lists.
